@@ -15,6 +15,9 @@ def _core(out, tier, seed, prop, quick_mc, thorough_mc, quick_rand, thorough_ran
         # renames on the small catalogues (multi-line groups listed by other groups are frequent there)
         for small in (("gfa1s", "perml", "permp") if cat == "gfa1" else ("gfa2s", "permg")):
             jobs["renall-" + small] = core.rename_jobs(small, max(40, nr // 3), seed + 55, kind="renall" + small)
+        # the identifier catalogues (collisions between record types, ID tags)
+        idc = "ids1" if cat == "gfa1" else "ids2"
+        jobs["doc-" + idc] = core.doc_jobs(idc, max(40, nr // 3), 5, seed + 81, kind="doc" + idc)
         # equal lines without identifier are separate lines
         jobs["dup-" + cat] = core.dup_jobs(cat, seed + 61)
         # every identified line of a document renamed in turn
@@ -153,10 +156,12 @@ def check_c03(out, tier, seed):
     from . import core as c
     rnd = random.Random(seed)
     plan = [("perm1", 3, 4, "none", None), ("perm2", 3, 4, "none", None),
-            ("permg", 3, 5, "none", None), ("perml", 3, 5, "none", None), ("permp", 3, 5, "none", None)] if tier == "quick" else \
+            ("permg", 3, 5, "none", None), ("perml", 3, 5, "none", None), ("permp", 3, 5, "none", None),
+            ("permh", 7, 7, "none", 1300)] if tier == "quick" else \
            [("perm1", 3, 6, "none", 60000), ("perm2", 3, 5, "none", None),
             ("perm1", 3, 5, "gfa1", 30000), ("perm2", 3, 4, "gfa2", None),
-            ("permg", 3, 7, "none", 60000), ("perml", 3, 7, "none", 60000), ("permp", 3, 7, "none", 60000)]
+            ("permg", 3, 7, "none", 60000), ("perml", 3, 7, "none", 60000), ("permp", 3, 7, "none", 60000),
+            ("permh", 7, 7, "none", None)]
     jobs = []
     sp_states = sp_trans = 0
     ndocs = 0
@@ -164,6 +169,9 @@ def check_c03(out, tier, seed):
         seqs, ops, st = c.mc_arrival(cat, lo, hi, "arr-%s-%s" % (cat, ver), cfgversion=ver)
         sp_trans += st[0]
         sp_states += st[1]
+        if cap and len(seqs) > cap and len({tuple(sorted(k)) for k in seqs}) == 1:
+            # one large document: a seeded sample of its arrival orders
+            seqs = dict(rnd.sample(sorted(seqs.items()), cap))
         if cap and len(seqs) > cap:     # keep whole documents: sample documents, not orders
             docs = sorted({tuple(sorted(k)) for k in seqs})
             rnd.shuffle(docs)
